@@ -93,6 +93,11 @@ int merge_msa(struct msa** dest, struct msa* src)
                         ERROR_MSG("Input alignments have different alphabets");
                 }
         }
+        if(d->aligned == ALN_STATUS_FINAL){
+                /* sequences are added to an alignment that has already been written out in its final form:
+                   the combined set is not an alignment any more; go back to the plain sequences */
+                RUN(dealign_msa(d));
+        }
         if(d->aligned != 0 && d->aligned != ALN_STATUS_UNKNOWN){
                 if(d->aligned != src->aligned){
                         d->aligned = ALN_STATUS_UNKNOWN;
